@@ -122,6 +122,11 @@ def build(tier, rnd):
                  "def n = 5; def a = '{n#3}'; s('{a#2}{a#7}{n#04}')", "def a = 'x'; s('{a#100000}') !> length()"]:
         cases.append(("s-braces", prog, False))
         cases.append(("s-braces", "do %s catch all 'caught' end" % prog, False))
+    # loops over an input value (lines of a text) with every way of leaving an iteration
+    for body in ["if line == 'skip' then continue; append(seen, line)", "if line == 'skip' then break; append(seen, line)", "append(seen, line); continue", "continue",
+                 "if line == 'b' then return seen; append(seen, line)", "do if line == 'skip' then continue end; append(seen, line)", "for c in line do if c == 'k' then continue end; append(seen, line)"]:
+        for text in ["a\\nskip\\nb", "skip", "", "skip\\nskip\\na"]:
+            cases.append(("input-loop", "require IO; def seen = []; def f() do for line in IO->str_input('%s') do %s end; seen end; f()" % (text, body), False))
     # element assignment whose right-hand side shrinks, grows or replaces the very container it assigns to
     for coll in ["[1, 2, 3]", "[1]", "<<<1 => 2, 3 => 4>>>", "'abc'", "<*a = 1*>"]:
         for tgt in ["c[2]", "c[-1]", "c[0]", "c[1]", "c['a']", "c->a"]:
